@@ -548,3 +548,172 @@ Proof.
   destruct (ph_pos a) as [[px py]|]; [destruct (ph_lf a)|]; intros Main; try exact Main.
   left. split; [discriminate|reflexivity].
 Qed.
+
+(* ------------------------------------------------------------------ the block printed by print_placeholder_for_put
+   (save / line / restore / IND per row, the last row without) on a screen without scroll margins: it ends in the
+   column after the block (or pending in the last column) on row min(y + rows - 1, H - 1) *)
+Lemma block_spec n width : forall lines, Forall (Eff (pn n)) lines -> lines <> [] ->
+  forall t, wf t -> full t -> vpend t = false -> (1 <= n)%nat -> vx t + Z.of_nat n <= vW t ->
+  exists t', vt_feed (PGround, t) (stream_at_cursor lines true false width) = ((PGround, t'), []) /\
+             vx t' = Z.min (vx t + Z.of_nat n) (vW t - 1) /\ vpend t' = (vx t + Z.of_nat n =? vW t) /\
+             vy t' = Z.min (vy t + Z.of_nat (length lines) - 1) (vH t - 1) /\ good t t'.
+Proof.
+  induction 1 as [|l rest Hl Hrest IH]; intros Hne t Hwf Hfull Hp Hn Hfit; [congruence|].
+  destruct rest as [|l2 rest'].
+  - cbn [stream_at_cursor length]. exists (pn n t). split; [apply Hl|].
+    destruct (pn_spec n t Hwf Hp Hfit) as (A1 & _ & _ & _ & _ & _ & _ & A8 & _ & A10).
+    destruct (A10 ltac:(lia)) as [B1 B2]. split; [exact B1|]. split; [exact B2|].
+    split; [unfold wf in Hwf; lia|apply pn_good; exact Hwf].
+  - change (stream_at_cursor (l :: l2 :: rest') true false width) with
+      (cg_ph_save ++ l ++ (cg_ph_restore ++ cg_ph_ind) ++ stream_at_cursor (l2 :: rest') true false width).
+    set (t1 := vt_save t).
+    assert (W1 : wf t1) by (apply save_good; exact Hwf).
+    destruct (pn_spec n t1 W1 Hp ltac:(exact Hfit)) as (A1 & A2 & A3 & A4 & A5 & A6 & A7 & A8 & _ & _).
+    set (t2 := pn n t1) in *.
+    assert (W2 : wf t2) by (apply pn_good; exact W1).
+    set (t4 := vt_index (vt_restore t2)).
+    assert (W4 : good t t4).
+    { eapply good_trans; [apply save_good; exact Hwf|]. eapply good_trans; [apply pn_good; exact W1|].
+      eapply good_trans; [apply restore_good; exact W2|]. apply index_good. apply restore_good. exact W2. }
+    assert (X4 : vx t4 = vx t /\ vpend t4 = false /\ vy t4 = Z.min (vy t + 1) (vH t - 1)).
+    { unfold t4, vt_index, vt_restore, vt_goto. fields. rewrite A2, A3, A6, A7, A8. unfold t1, vt_save. fields.
+      unfold wf, full in *. destruct (vy t =? vbot t) eqn:E; fields; lia. }
+    destruct X4 as (X1 & X2 & X3). destruct W4 as (G1 & (G2 & G3) & G4).
+    destruct (IH ltac:(discriminate) t4 G1 (G4 Hfull) X2 Hn ltac:(lia)) as (t' & E & R1 & R2 & R3 & R4).
+    exists t'. split.
+    { rewrite feed_app, (Eff_ph_save t). rewrite feed_app, (Hl (vt_save t)). rewrite feed_app.
+      rewrite feed_app, (Eff_ph_restore (pn n (vt_save t))), (Eff_ph_ind (vt_restore (pn n (vt_save t)))).
+      fold t1. fold t2. fold t4. rewrite E. reflexivity. }
+    split; [lia|]. split; [rewrite R2, X1, G2; reflexivity|].
+    split; [rewrite R3, X3, G3; cbn [length]; unfold wf in Hwf; lia|].
+    eapply good_trans; [|exact R4]. split; [exact G1|]. split; [split; assumption|exact G4].
+Qed.
+
+(* ------------------------------------------------------------------ print_placeholder_for_put *)
+Lemma Inv_mkw W H t tr mf out : InvT W H t tr mf -> Inv W H (mkw t tr mf out).
+Proof. intros I. exists t, tr, mf, out. split; [reflexivity|exact I]. Qed.
+
+Lemma gcpt_eq t tr mf out : wf t -> (forall p, tr = Some p -> vt_cursor t = p) ->
+  exists out', get_cursor_position_tracked TS vt_feed (mkw t tr mf out) =
+               (mkw t (Some (vx t, vy t)) mf out', RPos (vx t) (vy t)).
+Proof.
+  intros Hwf Hc. unfold get_cursor_position_tracked. cbn [mkw w_tr]. destruct tr as [[tx ty]|].
+  - specialize (Hc _ eq_refl). unfold vt_cursor in Hc. injection Hc as <- <-. eexists. reflexivity.
+  - fold (mkw t None mf out). rewrite gcp_eq by exact Hwf. eexists. reflexivity.
+Qed.
+
+Lemma prepare_inv W H sc t mf out prows dnm : InvT W H t (Some (vx t, vy t)) mf ->
+  exists tA trA outA rows, put_prepare TS vt_feed (C W H sc) (mkw t (Some (vx t, vy t)) mf out) (vy t) prows dnm =
+                           (mkw tA trA mf outA, rows) /\ InvT W H tA trA mf /\ vx tA = vx t.
+Proof.
+  intros I. pose proof I as (Hwf & HW & HH & Hc & Hf). unfold put_prepare. change (cH (C W H sc)) with H.
+  destruct (H - vy t <? prows) eqn:E; [destruct dnm|].
+  - eexists _, _, _, _. split; [reflexivity|]. split; [exact I|reflexivity].
+  - cbv zeta. rewrite (wr_Eff _ _ _ _ _ _ (Eff_put_scroll (prows - (H - vy t)) ltac:(lia))).
+    unfold move_cursor.
+    destruct (move_core_eq W H sc t (Some (vx t, vy t)) mf (out ++ fmt_d cg_put_scroll [prows - (H - vy t)])
+                (Some (- (prows - (H - vy t)))) None) as [out' Em].
+    rewrite Em. cbn [fst].
+    eexists _, _, _, _. split; [reflexivity|]. split; [apply move_sound; exact I|].
+    unfold hmove. cbn [truthy].
+    assert (Hfull : truthy (Some (- (prows - (H - vy t)))) = true -> mf = true \/ full t).
+    { intros _. destruct mf; [left; reflexivity|right; apply Hf; reflexivity]. }
+    unfold vmove. cbn [truthy or0]. destruct (negb (- (prows - (H - vy t)) =? 0)); [|reflexivity].
+    destruct (0 <? - (prows - (H - vy t))); unfold vt_down, vt_up, vt_goto, wf in *; fields; lia.
+  - eexists _, _, _, _. split; [reflexivity|]. split; [exact I|reflexivity].
+Qed.
+
+(* the final cursor movement, when nothing is claimed about where the printing left the cursor *)
+Lemma finish_inv_any W H sc t mf out cx cy cols rows dnm : InvT W H t None mf -> 0 <= cx -> 0 <= cy ->
+  (dnm = true \/ mf = true) ->
+  Inv W H (put_finish TS vt_feed (C W H sc) (mkw t None mf out) cx cy cols rows dnm).
+Proof.
+  intros I Hx Hy Hcase. pose proof I as (Hwf & HW & HH & Hc & Hf). unfold put_finish. cbv zeta.
+  change (fx_marg (c_fix (C W H sc))) with true. change (cW (C W H sc)) with W.
+  destruct dnm.
+  - destruct (abs_eq W H sc t None mf out (Some cx) (Some cy)) as [out' E];
+      [intros v [= <-]; exact Hx|intros v [= <-]; exact Hy|].
+    rewrite E. cbn [negb andb mkw w_mflag]. rewrite andb_false_r. apply Inv_mkw. apply abs_sound. exact I.
+  - destruct Hcase as [Hd|Hm]; [discriminate|]. subst mf.
+    destruct (W <=? cx + cols).
+    + rewrite (wr_Eff _ _ _ _ _ _ Eff_put_nel). unfold set_tracked, set_tr. cbn [mkw w_term w_in w_out w_tr w_mflag andb negb].
+      apply (Inv_mkw W H (vt_cr (vt_index t)) None true). eapply InvT_good; [exact I|].
+      eapply good_trans; [apply index_good; exact Hwf|apply cr_good; apply index_good; exact Hwf].
+    + unfold set_tracked, set_tr. cbn [mkw w_term w_in w_out w_tr w_mflag andb negb].
+      apply (Inv_mkw W H t None true). exact I.
+Qed.
+
+(* ... and when the printing ended where block_spec says *)
+Lemma finish_inv_exact W H sc t out cx cy cols rows : InvT W H t None false ->
+  0 <= cx -> 0 <= cy < H -> 1 <= cols -> 1 <= rows -> cx + cols <= W ->
+  vx t = Z.min (cx + cols) (W - 1) -> vpend t = (cx + cols =? W) -> vy t = Z.min (cy + rows - 1) (H - 1) ->
+  Inv W H (put_finish TS vt_feed (C W H sc) (mkw t None false out) cx cy cols rows false).
+Proof.
+  intros I Hx Hy Hc1 Hr1 Hfit Ex Ep Ey. pose proof I as (Hwf & HW & HH & Hc & Hf). specialize (Hf eq_refl).
+  unfold put_finish. cbv zeta. change (fx_marg (c_fix (C W H sc))) with true. change (cW (C W H sc)) with W.
+  destruct (W <=? cx + cols) eqn:E.
+  - rewrite (wr_Eff _ _ _ _ _ _ Eff_put_nel). unfold set_tracked, set_tr.
+    cbn [C c_fix all_fixed fx_low cW cH mkw w_term w_in w_out w_tr w_mflag andb negb].
+    apply Inv_mkw.
+    assert (G : good t (vt_cr (vt_index t))) by
+      (eapply good_trans; [apply index_good; exact Hwf|apply cr_good; apply index_good; exact Hwf]).
+    destruct G as (G1 & (G2 & G3) & G4).
+    split; [exact G1|]. split; [congruence|]. split; [congruence|]. split; [|intros _; apply G4, Hf].
+    intros p [= <-]. unfold vt_cursor, vt_cr, vt_index, vt_goto, wf, full in *. fields.
+    destruct (vy t =? vbot t) eqn:Eb; fields; f_equal; lia.
+  - unfold set_tracked, set_tr. cbn [C c_fix all_fixed fx_low cW cH mkw w_term w_in w_out w_tr w_mflag andb negb].
+    apply Inv_mkw. split; [exact Hwf|]. split; [exact HW|]. split; [exact HH|]. split; [|intros _; exact Hf].
+    intros p [= <-]. unfold vt_cursor, wf in *. f_equal; lia.
+Qed.
+
+Lemma print_inv W H sc t tr mf out image placement cols rows dnm : InvT W H t tr mf ->
+  1 <= cols -> 1 <= rows -> vx t + cols <= W ->
+  Inv W H (fst (put_print TS vt_feed (C W H sc) (mkw t tr mf out) image placement cols rows dnm)).
+Proof.
+  intros I Hc1 Hr1 Hfit. pose proof I as (Hwf & HW & HH & Hc & Hf). unfold put_print.
+  rewrite gcp_eq by exact Hwf. cbv zeta. change (fx_pend (c_fix (C W H sc))) with true. cbv iota.
+  assert (Hx0 : 0 <= vx t) by (unfold wf in Hwf; lia).
+  rewrite (wr_Eff _ _ _ _ _ _ (Eff_put_cha (vx t) Hx0)). unfold set_tr at 1. cbn [mkw w_term w_in w_out w_tr w_mflag].
+  set (tB := vt_goto t (vx t) (vy t)). set (outB := (out ++ cg_cpr_query) ++ fmt_d cg_put_cha [vx t + 1]).
+  change (World (PGround, tB) [] outB None mf) with (mkw tB None mf outB).
+  assert (GB : good t tB) by (apply goto_good; exact Hwf).
+  assert (IB : InvT W H tB None mf) by (eapply InvT_good; [exact I|exact GB]).
+  assert (FB : vx tB = vx t /\ vy tB = vy t /\ vpend tB = false) by (unfold tB, vt_goto, wf in *; fields; lia).
+  destruct FB as (FB1 & FB2 & FB3).
+  set (a := PhArgs image placement 0 0 cols rows None true false).
+  destruct (pp_cases W H sc tB None mf outB a ltac:(apply GB) ltac:(intros px py P; discriminate)) as [[Hr Hw]|[Hr Hw]];
+    destruct (print_placeholder TS vt_feed (C W H sc) (mkw tB None mf outB) a) as [w' r]; cbn [fst snd] in Hr, Hw.
+  - destruct r; try congruence; cbn [fst]; subst w'; apply Inv_mkw; exact IB.
+  - subst r. destruct Hw as (lines & t' & V & L & E & G & ->). cbn [fst].
+    assert (I' : InvT W H t' None mf) by (eapply InvT_good; [exact IB|exact G]).
+    destruct dnm; [apply finish_inv_any; [exact I'|lia|unfold wf in Hwf; lia|left; reflexivity]|].
+    destruct mf; [apply finish_inv_any; [exact I'|lia|unfold wf in Hwf; lia|right; reflexivity]|].
+    (* no margins, cursor moves: the exact end position is needed *)
+    destruct (ph_lines_Eff a lines ltac:(cbn [a ph_sc ph_ec]; lia) L) as [F Len]. cbn [a ph_sc ph_ec ph_sr ph_er] in F, Len.
+    unfold ph_bytes in E. cbn [a ph_pos ph_save ph_lf ph_ec ph_sc] in E.
+    destruct (block_spec (Z.to_nat (cols - 0)) (cols - 0) lines F ltac:(destruct lines; [cbn [length] in Len; lia|discriminate])
+                tB ltac:(apply GB) ltac:(apply GB, Hf; reflexivity) FB3 ltac:(lia)
+                ltac:(destruct GB as (_ & (GW & _) & _); lia)) as (t'' & E2 & R1 & R2 & R3 & _).
+    rewrite E in E2. injection E2 as <-.
+    destruct GB as (_ & (GW & GH) & _).
+    apply finish_inv_exact; [exact I'|lia|unfold wf in Hwf; lia|lia|lia|lia| | |].
+    + rewrite R1, FB1, GW, HW. lia.
+    + rewrite R2, FB1, GW, HW. replace (vx t + Z.of_nat (Z.to_nat (cols - 0))) with (vx t + cols) by lia. reflexivity.
+    + rewrite R3, FB2, GH, HH, Len. lia.
+Qed.
+
+Lemma ppfp_inv W H sc t tr mf out image placement pcols prows dnm : InvT W H t tr mf ->
+  Inv W H (fst (print_placeholder_for_put TS vt_feed (C W H sc) (mkw t tr mf out) image placement pcols prows dnm)).
+Proof.
+  intros I. pose proof I as (Hwf & HW & HH & Hc & Hf). unfold print_placeholder_for_put.
+  destruct prows as [prows|]; [|cbn [fst]; apply Inv_mkw; exact I].
+  destruct pcols as [pcols|]; [|cbn [fst]; apply Inv_mkw; exact I].
+  destruct image as [image|]; [|cbn [fst]; apply Inv_mkw; exact I].
+  destruct (gcpt_eq t tr mf out Hwf Hc) as [out1 E1]. rewrite E1. cbv zeta.
+  assert (I1 : InvT W H t (Some (vx t, vy t)) mf).
+  { split; [exact Hwf|]. split; [exact HW|]. split; [exact HH|]. split; [intros p [= <-]; reflexivity|exact Hf]. }
+  destruct (prepare_inv W H sc t mf out1 prows dnm I1) as (tA & trA & outA & rows & E2 & IA & XA).
+  rewrite E2. change (cW (C W H sc)) with W.
+  destruct ((Z.min pcols (W - vx t) <=? 0) || (rows <=? 0)) eqn:Ez; [cbn [fst]; apply Inv_mkw; exact IA|].
+  apply print_inv; [exact IA|lia|lia|lia].
+Qed.
